@@ -80,6 +80,7 @@ type State struct {
 	fresh     map[string]bool // texts of refs allocated in this activation
 	calls     []string        // abstract call log (effects)
 	stops     []*stopPoint    // pending join blocks (state merging)
+	strSrc    map[string]*strSrc
 }
 
 func (s *State) top() *Frame { return s.frames[len(s.frames)-1] }
@@ -109,6 +110,12 @@ func (s *State) clone() *State {
 	n.frames = make([]*Frame, len(s.frames))
 	for i, f := range s.frames {
 		n.frames[i] = f.clone()
+	}
+	if s.strSrc != nil {
+		n.strSrc = make(map[string]*strSrc, len(s.strSrc))
+		for k, v := range s.strSrc {
+			n.strSrc[k] = v
+		}
 	}
 	n.trace = append([]string(nil), s.trace...)
 	n.calls = append([]string(nil), s.calls...)
@@ -347,6 +354,8 @@ func (x *Exec) assumeStr(st *State, t *Term) {
 	}
 	st.assumedR[key] = true
 	x.assume(st, app(SBool, "str.in_re", t, &Term{s: "(re.* (re.range \"\\u{0}\" \"\\u{ff}\"))", sort: "RegLan"}), "byte-string")
+	// platform fact: no string is longer than the address space
+	x.assume(st, app(SBool, "<=", app(SInt, "str.len", t), IntLitBig(maxAddr)), "string-length")
 }
 
 func (x *Exec) assumeRef(st *State, t *Term) {
